@@ -262,3 +262,36 @@ func verifLemmaReservationStep(req models.ChfConvergedChargingChargingDataReques
 //@   ensures sur != nil && !rating.GhostFailed ==> result == rating.GhostUnitCost[uint32(rg)]
 //@   show rating.GhostUnitCost[uint32(rg)]
 //@   modifies field(sur, ServiceRating), field(sur, DestinationRealm), field(sur, DestinationHost), global(&rating.GhostRequests), global(&rating.GhostFailed)
+
+// ---- HTTP layer of the charging operations (C11 C12) --------------------------------------------
+
+// ghost view of the response written through gin (updated by the assumed contracts of gin.Context)
+var ghostHttpStatus int
+var ghostHttpBody bool
+var ghostHttpWrites int
+
+// Exactly one response per request; 201 / 200 with a body, 204 without, otherwise a 4xx problem body.
+//@ func (*Processor).HandleChargingdataInitial [C11 C12]
+//@   entry
+//@   requires c != nil && ghostHttpWrites >= 0 && ghostHttpWrites < 1<<40
+//@   ensures ghostHttpWrites == old(ghostHttpWrites)+1 && ghostHttpBody
+//@   ensures ghostHttpStatus == 201 || (ghostHttpStatus >= 400 && ghostHttpStatus < 500)
+//@   ensures chargingdata.NfConsumerIdentification == nil ==> ghostHttpStatus == 400
+
+//@ func (*Processor).HandleChargingdataUpdate [C11 C12]
+//@   entry
+//@   requires c != nil && ghostHttpWrites >= 0 && ghostHttpWrites < 1<<40
+//@   requires [C20] factory.SpecValidated(factory.ChfConfig)
+//@   requires [C20] chf_context.GetSelf().AbmfCfg != nil && chf_context.GetSelf().RatingCfg != nil
+//@   ensures ghostHttpWrites == old(ghostHttpWrites)+1 && ghostHttpBody
+//@   ensures ghostHttpStatus == 200 || (ghostHttpStatus >= 400 && ghostHttpStatus < 500)
+//@   ensures old(specUe(chargingdata).Cdr[chargingSessionId]) == nil ==> ghostHttpStatus >= 400
+
+//@ func (*Processor).HandleChargingdataRelease [C11 C12]
+//@   entry
+//@   requires c != nil && ghostHttpWrites >= 0 && ghostHttpWrites < 1<<40
+//@   requires [C20] factory.SpecValidated(factory.ChfConfig)
+//@   requires [C20] chf_context.GetSelf().AbmfCfg != nil && chf_context.GetSelf().RatingCfg != nil
+//@   ensures ghostHttpWrites == old(ghostHttpWrites)+1
+//@   ensures (ghostHttpStatus == 204 && !ghostHttpBody) || (ghostHttpStatus >= 400 && ghostHttpStatus < 500 && ghostHttpBody)
+//@   ensures old(specUe(chargingdata).Cdr[chargingSessionId]) == nil ==> ghostHttpStatus >= 400
